@@ -784,7 +784,16 @@ func init() {
 			fns := p.ProdFuncs()
 			r.Analysed = len(fns)
 			for _, fn := range fns {
-				adds := callsTo(fn, addRow)
+				// AddRow itself, or a helper of the package that (transitively) calls it — a row
+				// loop moved into loadRows() is still a row loop (round 7, C02-r7m3)
+				var adds []ssa.CallInstruction
+				seenSite := map[ssa.CallInstruction]bool{}
+				for _, e := range effSites(p, fn, addRow, inlineDepth) {
+					if !seenSite[e.site] {
+						seenSite[e.site] = true
+						adds = append(adds, e.site)
+					}
+				}
 				if len(adds) == 0 {
 					continue
 				}
